@@ -107,6 +107,8 @@ func verifConcretize(x int) int           { return x }
 func verifChoice(id string, n int) int    { return 0 }
 func verifTreeEq(a, b any, mode int) bool { return false }
 func verifInSet(b byte, set string) bool  { return false }
+func verifCensus(root any) map[string]int { return nil }
+func verifTypeOf(x any) string            { return "" }
 `
 
 func loadProgram(verifDir string, patterns []string, harnessPkg, harnessFn string) (*ProgramCtx, error) {
